@@ -35,6 +35,7 @@ SCENARIOS: list[dict[str, Any]] = [
     {"name": "kill", "queue": [], "kill": True, "pollers": [("B", 1)]},
     {"name": "three", "queue": ["x", "x", "y"], "pollers": [("A", 2), ("B", 2), ("C", 1)]},
     {"name": "four-retry", "queue": ["x", "y", "x"], "retry": True, "pollers": [("A", 1), ("B", 2), ("C", 1), ("D", 1)]},
+    {"name": "batch-client", "queue": [], "batch": 3, "pollers": [("A", 2)]},
 ]
 
 MEM_FILES = (
@@ -44,6 +45,9 @@ MEM_FILES = (
     "pynenc/invocation/dist_invocation.py",
     "pynenc/core_tasks.py",
 )
+
+
+HISTORY_FILES = ("pynenc/state_backend/mem_state_backend.py", "pynenc/state_backend/base_state_backend.py")
 
 
 class Env:
@@ -147,6 +151,15 @@ def setup_env(kind: str, sc: dict, clock: vclock.VClock, shared: dict) -> Env:
             runner._kill_and_reroute(ids["x"])
 
         env.extra_actors = [("A-body", owner_runs), ("A-kill", killer)]
+    if sc.get("batch"):
+        nb = sc["batch"]
+
+        def batch_client():
+            # a client registering a parallelize batch while runners poll (batch registration writes one history entry per invocation)
+            context.set_runner_context(app.app_id, apps.rctx("CLIENT2"))
+            task.parallelize([(f"b{i}", 0, 0) for i in range(nb)])
+
+        env.extra_actors = [("client", batch_client)]
     apps.flush(app)
     return env
 
@@ -154,7 +167,8 @@ def setup_env(kind: str, sc: dict, clock: vclock.VClock, shared: dict) -> Env:
 def run_scenario(kind: str, sc: dict, policy: sched.Policy, clock: vclock.VClock, shared: dict) -> tuple[sched.Scheduler, Env]:
     env = setup_env(kind, sc, clock, shared)
     app = env.app
-    tf = sched.trace_file_set(*MEM_FILES) if kind == "mem" else sched.trace_file_set("pynenc/core_tasks.py")
+    files = MEM_FILES + (HISTORY_FILES if shared.get("trace_history") else ())
+    tf = sched.trace_file_set(*files) if kind == "mem" else sched.trace_file_set("pynenc/core_tasks.py", *(HISTORY_FILES[1:] if shared.get("trace_history") else ()))
     s = sched.Scheduler(policy, clock=clock, trace_files=tf, max_steps=60_000, quantum_us=0)
     env.poll_errors = []
     # claim-window tracking for the non-triviality rule: a forced switch while some poller is inside get_invocations_to_run
@@ -215,7 +229,7 @@ def shard(kind: str, sc_idx: int, mode: str, p_max: int, runs: int, seed: int, k
     inst = sched.install_threading()
     if kind == "sqlite":
         sched.install_sqlite(inst)
-    shared: dict = {}
+    shared: dict = {"trace_history": with_history}
     sc = SCENARIOS[sc_idx]
     try:
         def run_with(policy):
@@ -270,7 +284,7 @@ def plan(ctx: Ctx) -> list[tuple]:
     jobs = []
     for kind in ("mem", "sqlite"):
         for i, sc in enumerate(SCENARIOS):
-            nact = len(sc["pollers"]) + (2 if (sc.get("recovery") or sc.get("kill")) else 0)
+            nact = len(sc["pollers"]) + (2 if (sc.get("recovery") or sc.get("kill")) else 0) + (1 if sc.get("batch") else 0)
             if nact == 2:
                 if ctx.quick:
                     jobs.append((kind, i, "dfs", 1, 260 if kind == "mem" else 400, ctx.seed, known))
